@@ -56,8 +56,24 @@ fn witness<B: AsRef<[usize]>>(s: &WitSel<B>, rank: usize, ones: bool) -> usize {
     p
 }
 
+/// Under `--prove-safety-only` (C12) panics are path ends, so a violated
+/// selection precondition -- undefined behaviour with the real selection
+/// structures -- is made visible as what it stands for: an invalid read.
+#[cfg(feature = "c12")]
+fn precondition_violated() {
+    unsafe {
+        let p: *const u8 = core::ptr::null();
+        let _ = core::ptr::read_volatile(p);
+    }
+}
+#[cfg(not(feature = "c12"))]
+fn precondition_violated() {}
+
 impl<B: AsRef<[usize]>> SelectUnchecked for WitSel<B> {
     unsafe fn select_unchecked(&self, rank: usize) -> usize {
+        if rank >= count_below(self, true) {
+            precondition_violated();
+        }
         assert!(rank < count_below(self, true), "select_unchecked called with rank >= number of ones (selection precondition)");
         witness(self, rank, true)
     }
@@ -65,6 +81,9 @@ impl<B: AsRef<[usize]>> SelectUnchecked for WitSel<B> {
 
 impl<B: AsRef<[usize]>> SelectZeroUnchecked for WitSel<B> {
     unsafe fn select_zero_unchecked(&self, rank: usize) -> usize {
+        if rank >= count_below(self, false) {
+            precondition_violated();
+        }
         assert!(rank < count_below(self, false), "select_zero_unchecked called with rank >= number of zeros (selection precondition)");
         witness(self, rank, false)
     }
